@@ -369,6 +369,36 @@ def s6(run, tu):
                'the in-line parser: %s; the C parser: %s' % (py, c))
 
 
+def s7(run, tu):
+    """parenthesised declarators: after `(` the C parser decides "grouping" or "parameter list" from the next token.  In C (and for pycparser)
+    an abstract declarator in parentheses starts with `*` or `[` (or another `(`); the C parser's test must accept at least `*` and `[`,
+    or `int ([3])` / `int *([N])` denote a type for the in-line parser and are rejected by the compiled one"""
+    F = 'parse_sequel'
+    g = cfg_of(tu, F)
+    toks = token_values(tu)
+    # the disjuncts `tok->kind == K` that are evaluated under the `check_for_grouping` test and lead to the grouping branch
+    guard = [n for n in g.nodes if n.kind == 'cond' and 'check_for_grouping' in cx.render(n.ast)]
+    run.need(len(guard) >= 1, '%s: the grouping test not found' % F)
+    kinds = set()
+    it = absint.Interp(g, {})
+    for n in g.nodes:
+        if n.kind == 'cond' and n.ast.get('kind') == 'BinaryOperator' and n.ast.get('opcode') == '==' and cx.render(cx.kids(n.ast)[0]) == 'tok->kind':
+            facts = g.fact_texts(n.id)
+            if any(f.startswith('T:') and 'check_for_grouping' in f for f in facts):
+                rhs = cx.render(cx.strip(cx.kids(n.ast)[1], casts=True))
+                if rhs in toks:
+                    kinds.add(toks[rhs])
+                else:
+                    v = it.ev(cx.kids(n.ast)[1], {})
+                    if isinstance(v, Con):
+                        kinds.add(v.v)
+    names = {v: k for k, v in toks.items()} if isinstance(toks, dict) else {}
+    shown = sorted(chr(k) if 32 < k < 127 else names.get(k, str(k)) for k in kinds)
+    need = {ord('*'), ord('[')}
+    run.ob('S7/grouping-parentheses-recognised-before-star-and-bracket', F, 'after `(`: grouping if the next token is one of %s' % shown, need <= kinds, tu.where(guard[0].ast),
+           'missing %s: `int (%s3])`-style declarators are a type for the in-line parser and a parse error for the C parser' % (sorted(chr(k) for k in need - kinds), '['))
+
+
 def check(run):
     run.technique = ('sibling decision tables: the specifier automaton of the C parser extracted by constant propagation over the CFG of parse_complete '
                      '(per state x token), the Python normalisation walked symbolically per specifier sequence; compared on all 2387 sequences')
@@ -428,6 +458,7 @@ def check(run):
     s4(run)
     s5(run, tu)
     s6(run, tu)
+    s7(run, tu)
     run.min_instances('S3', 60)
     run.min_instances('S4', 6)
     run.min_instances('S6', 20)
